@@ -708,6 +708,7 @@ func typeClass(t string) string {
 type progFunc struct {
 	Name   string // f1
 	Method bool   // func (t *T) f1
+	Recv   string // receiver type of a method: T or U
 	Params []tval
 	// filled while rendering
 	CallLine int // line of the call to the next function (or of the panic)
@@ -727,11 +728,14 @@ var _ = math.Pi
 
 type T struct{ x int }
 
+type U struct{ y, z int }
+
 var (
 	gi   = 7
 	gfl  = 1.5
 	gstr = "s"
 	gt   = &T{}
+	gu   = &U{}
 	gm   = map[int]int{1: 2}
 	gm2  = map[string]bool{}
 	gc   = make(chan int)
@@ -760,7 +764,7 @@ func genProg(r *Rng) *prog {
 	p := &prog{rng: r.Fork()}
 	depth := 2 + r.Intn(4)
 	for i := 0; i < depth; i++ {
-		f := progFunc{Name: fmt.Sprintf("f%d", i+1), Method: r.Chance(1, 3)}
+		f := progFunc{Name: fmt.Sprintf("f%d", i+1), Method: r.Chance(2, 5), Recv: "T"}
 		limit := 10
 		if r.Chance(1, 4) {
 			limit = 14 // a few beyond the runtime's print limit
@@ -777,6 +781,14 @@ func genProg(r *Rng) *prog {
 			f.Params = append(f.Params, tv)
 		}
 		p.Fns = append(p.Fns, f)
+	}
+	// two consecutive methods: same method name on two receiver types, with
+	// their own parameter lists, in one file
+	for i := 1; i < len(p.Fns); i++ {
+		if p.Fns[i].Method && p.Fns[i-1].Method && p.Fns[i-1].Recv == "T" {
+			p.Fns[i].Recv = "U"
+			p.Fns[i].Name = p.Fns[i-1].Name
+		}
 	}
 	p.render(nil)
 	return p
@@ -796,7 +808,7 @@ func (p *prog) render(alt map[string]string) {
 		}
 		recv := ""
 		if f.Method {
-			recv = "gt."
+			recv = "g" + strings.ToLower(f.Recv) + "."
 		}
 		return recv + f.Name + "(" + strings.Join(ex, ", ") + ")"
 	}
@@ -812,7 +824,7 @@ func (p *prog) render(alt map[string]string) {
 		}
 		recv := ""
 		if f.Method {
-			recv = "(t *T) "
+			recv = "(t *" + f.Recv + ") "
 		}
 		w("\n//go:noinline\nfunc " + recv + f.Name + "(" + plist + ") {\n")
 		f.CallLine = line
@@ -896,7 +908,7 @@ func withoutProcessed(gs []*stack.Goroutine) string {
 
 func (f *progFunc) frameName() string {
 	if f.Method {
-		return "(*T)." + f.Name
+		return "(*" + f.Recv + ")." + f.Name
 	}
 	return f.Name
 }
@@ -938,8 +950,8 @@ func checkProgram(res *Result, pool *DrvPool, p *prog, dir string, tb []byte, na
 		}
 		params := f.Params
 		if f.Method {
-			recv := tval{Kind: "ptr", TypeSrc: "*T", TypeName: "*T", Expr: "gt", Words: []uint64{0}, Known: []bool{false},
-				WantRe: `^\*T\(` + addrRe + `\)$`}
+			recv := tval{Kind: "ptr", TypeSrc: "*" + f.Recv, TypeName: "*" + f.Recv, Expr: "g" + strings.ToLower(f.Recv), Words: []uint64{0}, Known: []bool{false},
+				WantRe: `^\*` + f.Recv + `\(` + addrRe + `\)$`}
 			params = append([]tval{recv}, params...)
 		}
 		if len(params) > 0 && len(c.Args.Values) == 0 {
